@@ -28,8 +28,24 @@ var Solvers = []SolverCfg{
 // ScriptFor renders the SMT-LIB script of one obligation.
 func ScriptFor(s *Script, o *Obligation, solver string) string {
 	var b strings.Builder
+	b.WriteString("; obligation: " + o.Name + "\n")
 	b.WriteString(Prelude)
-	for _, l := range s.Lines[:o.CtxLen] {
+	var keep map[string]bool
+	if f, ok := s.Focus[o.Label]; ok && o.Expect == "unsat" {
+		keep = map[string]bool{}
+		for _, l := range f {
+			keep[l] = true
+		}
+	}
+	for i, l := range s.Lines[:o.CtxLen] {
+		if i >= o.SkipFrom && i < o.SkipTo && !s.Global[i] && strings.HasPrefix(l, "(assert") {
+			continue // a fact about code that runs after the program point of this obligation
+		}
+		if keep != nil {
+			if tag, tagged := s.Tags[i]; tagged && !keep[tag] {
+				continue // an invariant this obligation was declared not to need
+			}
+		}
 		b.WriteString(l)
 		b.WriteByte('\n')
 	}
@@ -245,7 +261,10 @@ func CrossCheck(s *Script, workDir string, timeoutS int, workers int) {
 func relaxedScript(s *Script, o *Obligation) string {
 	var b strings.Builder
 	b.WriteString(Prelude)
-	for _, l := range s.Lines[:o.CtxLen] {
+	for i, l := range s.Lines[:o.CtxLen] {
+		if i >= o.SkipFrom && i < o.SkipTo && !s.Global[i] && strings.HasPrefix(l, "(assert") {
+			continue
+		}
 		if strings.HasPrefix(l, "(assert") && (strings.Contains(l, "(forall ") || strings.Contains(l, "(exists ")) {
 			continue
 		}
